@@ -128,6 +128,16 @@ pub fn cases(thorough: bool, seed: u64) -> Vec<Params> {
             out.push(Params { n: 2, t: 2, ids: IdSet::Default, subset: vec![0, 1], variant: V_CHEAT, aux: root | (mode << 4) | (1 << 8), seed });
         }
     }
+    for root in [ROOT_NONE as u64, ROOT_EMPTY as u64] {
+        out.push(Params { n: 2, t: 2, ids: IdSet::Default, subset: vec![0, 1], variant: V_CHEAT, aux: root | (1 << 4) | (1 << 8), seed });
+    }
+    if thorough {
+        for root in [ROOT_UNTWEAKED as u64, ROOT_32 as u64, ROOT_NONE as u64] {
+            for slot in 0..3u64 {
+                out.push(Params { n: 4, t: 3, ids: IdSet::Default, subset: vec![1, 2, 3], variant: V_CHEAT, aux: root | (1 << 4) | (slot << 8), seed });
+            }
+        }
+    }
     out.push(Params { n: 2, t: 2, ids: IdSet::Default, subset: vec![], variant: V_DKG_KEY, aux: 0, seed });
     out.push(Params { n: 3, t: 2, ids: IdSet::U16(vec![7, 300, 65535]), subset: vec![], variant: V_DKG_KEY, aux: 0, seed });
     out.push(Params { n: 0, t: 0, ids: IdSet::Default, subset: vec![], variant: V_SINGLE, aux: 0, seed });
@@ -259,6 +269,23 @@ pub fn run<L: Lab<TR>>(lab: &mut L, p: &Params) {
                 }
             }
         }
+        // the suite's own entry points give the same answer as the core aggregation on the
+        // (tweaked) package: same success, same culprit
+        if mode == 1 {
+            let r2 = if root_kind == ROOT_UNTWEAKED { tr::aggregate(&sess.package, &shares, &keys.1) } else { tr::aggregate_with_tweak(&sess.package, &shares, &keys.1, root.as_deref()) };
+            match r2 {
+                Ok(sig) => {
+                    lab.check(same == Some(true), "the suite's aggregation entry point succeeds only with the honest share");
+                    if let Ok(bytes) = sig.serialize() {
+                        bip340_verify(lab, &qx, &msg, &bytes, "signature released by the suite's aggregation entry point");
+                    }
+                }
+                Err(e) => {
+                    lab.check(same == Some(false), "the suite's aggregation entry point fails only if the share differs");
+                    lab.check(e.culprits() == vec![cid], "the suite's aggregation entry point (with or without tweak) names the cheater and only the cheater");
+                }
+            }
+        }
         if root_kind == ROOT_UNTWEAKED {
             lab.note(&format!("parity P={}", is_odd(&internal) as u8));
         } else {
@@ -271,6 +298,34 @@ pub fn run<L: Lab<TR>>(lab: &mut L, p: &Params) {
     for id in &sess.signers {
         let r = fc::verify_signature_share(*id, &eff_pub.verifying_shares()[id], &shares[id], &sess.package, eff_pub.verifying_key());
         lab.check(r.is_ok(), "every honest Taproot share passes share verification");
+    }
+    // ---- every share is, value for value, the RFC 9591 share computed on the BIP-340-normalised
+    // quantities: binding factors over the even-y output key (02 || x), challenge = BIP-340
+    // challenge over x(R), x(Q); secret share negated for an odd internal key, offset by the tweak,
+    // negated again for an odd output key; nonces negated for an odd group commitment
+    if let Some(q_even) = lift_x(&qx) {
+        let list: scen::spec::CommitmentList<TR> = sess.signers.iter().map(|id| (id.to_scalar(), sess.commitments[id].hiding().value(), sess.commitments[id].binding().value())).collect();
+        if let Some(bfs) = scen::spec::compute_binding_factors::<TR>(q_even, &list, &msg) {
+            let bf_vals: Vec<Scalar> = bfs.iter().map(|x| x.1).collect();
+            let r_spec = scen::spec::compute_group_commitment::<TR>(&list, &bf_vals);
+            let r_odd = is_odd(&r_spec);
+            let c = int_mod_n(&tagged_hash("BIP0340/challenge", &[&x_of(&r_spec), &qx, &msg]));
+            let xs: Vec<Scalar> = sess.signers.iter().map(|i| i.to_scalar()).collect();
+            let p_odd = is_odd(&internal);
+            // the output key before its own normalisation
+            let (q_raw_odd, t) = if root_kind == ROOT_UNTWEAKED { (p_odd, Scalar::ZERO) } else { (is_odd(&out_key), int_mod_n(&tagged_hash("TapTweak", &[&px, root.as_deref().unwrap_or(b"")]))) };
+            for (j, id) in sess.signers.iter().enumerate() {
+                let Some(lambda) = scen::spec::derive_interpolating_value::<TR>(&xs, id.to_scalar()) else { continue };
+                let s_i = keys.0[id].signing_share().to_scalar();
+                let d = if root_kind == ROOT_UNTWEAKED { s_i } else { (if p_odd { -s_i } else { s_i }) + t };
+                let s_eff = if q_raw_odd { -d } else { d };
+                let (hn, bn) = (sess.nonces[id].hiding().clone().to_scalar(), sess.nonces[id].binding().clone().to_scalar());
+                let k = hn + bn * bf_vals[j];
+                let k = if r_odd { -k } else { k };
+                let z_spec = k + lambda * s_eff * c;
+                lab.eq_s(shares[id].share().0, z_spec, "signature share = RFC 9591 share over the BIP-340-normalised key, commitment and challenge (binding factors hash the even-y output key)");
+            }
+        }
     }
     let r = if root_kind == ROOT_UNTWEAKED { tr::aggregate(&sess.package, &shares, &keys.1) } else { tr::aggregate_with_tweak(&sess.package, &shares, &keys.1, root.as_deref()) };
     if !lab.check(r.is_ok(), "Taproot aggregation succeeds") {
